@@ -5,7 +5,7 @@
    (`repaired`), which `checked_tree_is_repaired` shows the checked tree to be. *)
 From Coq Require Import ZArith List Bool.
 From GD Require Import C02.Model C02.Slices C02.CodecProofs C02.BzRead C02.HistoryProofs C02.Windows
-                       C02.Handle C02.Current C02.Refutations C02.MplexCache C02.Writes C02.BzErr Gen.C02Cfg.
+                       C02.Handle C02.Current C02.Refutations C02.MplexCache C02.Writes C02.BzErr C02.Align Gen.C02Cfg.
 Import ListNotations.
 Local Open Scope Z_scope.
 
@@ -211,3 +211,24 @@ Theorem refuted_all_padding_read :
   ask (mkdb cfg0 ERaw 0 [FPhase 0 (-3)]) [] 1 0 5 = RData [0; 0; 0; 0; 1] /\
   ask (mkdb cfg_all ERaw 0 [FPhase 0 (-3)]) [] 1 0 2 = RData [0; 0].
 Proof. exact negseek_witness. Qed.
+
+(* inputs of different sample rates: the index expressions of the LINCOM kernels as read from common.c *)
+Theorem checked_tree_kernels_are_aligned : forallb kernel_ok tree_kernels = true.
+Proof. exact tree_kernels_ok. Qed.
+Theorem checked_tree_kernels_were_found : tree_kernels <> [].
+Proof. exact tree_kernels_nonempty. Qed.
+Theorem mixed_rate_kernels_pair_by_sample_number :
+  forall ks, forallb kernel_ok ks = true ->
+  forall rate, 0 < rate 0%nat ->
+  forall t, In t ks -> forall s j, picked rate t s j = paired rate (fst (fst (fst t))) (s + j).
+Proof. exact kernels_pair_by_sample_number. Qed.
+Theorem mixed_rate_sample_alone_or_inside_any_window :
+  forall ks, forallb kernel_ok ks = true ->
+  forall rate, 0 < rate 0%nat ->
+  forall t, In t ks -> forall s j s' j', s + j = s' + j' -> picked rate t s j = picked rate t s' j'.
+Proof. exact kernels_window_independent. Qed.
+Theorem misaligned_third_input_refuted :
+  kernel_ok (2, 1, 2, 0)%nat = false /\
+  picked rates_623 (2, 1, 2, 0)%nat 0 2 = 1 /\ picked rates_623 (2, 1, 2, 0)%nat 1 1 = 0 /\ paired rates_623 2 2 = 1 /\
+  picked rates_623 (2, 2, 2, 0)%nat 0 2 = 1 /\ picked rates_623 (2, 2, 2, 0)%nat 1 1 = 1.
+Proof. exact misaligned_kernel_witness. Qed.
